@@ -1,4 +1,5 @@
 import SCModel.Model.World
+import SCModel.Model.Forms
 /-!
 # Driver — line-protocol interpreter of the model
 
@@ -331,6 +332,20 @@ def step (e : Env) (line : String) : Env × String :=
           let out := [mean g, var g, minIn g none none c, maxIn g none none c] ++ ps.map (percentile g)
           (e, " ".intercalate (out.map showVal))
       | _, _, _ => bad
+  | ["stepchanges", r] =>
+    -- `step_changes`: the delta form derived from the (canonical) value form as `_make_deltas_from_vals` does
+    match e.get r with
+    | none => unbound
+    | some f => (e, " ".intercalate ((stepChanges f).map fun (p, d) => s!"{showRat p}:{showVal d}"))
+  | ["deltaroundtrip", r] =>
+    -- values recovered from the step changes (`_make_vals_from_deltas`) must be the step values again
+    match e.get r with
+    | none => unbound
+    | some f => (e, showFrame (toDeltaForm f).toValueForm)
+  | ["consistent", r] =>
+    match e.get r with
+    | none => unbound
+    | some _ => (e, "consistent")
   | ["views", r] =>
     match e.get r with
     | none => unbound
